@@ -19,7 +19,7 @@ fn termination_case(cfg: &Config, idx: u64, r: &mut Rng, st: &mut Stats) {
             st.sample(J::obj().set("kind", J::s("fixpoint")).set("source", J::s(&source)).set("formula", J::s(f.to_string())));
         }
         for p in PORTFOLIOS {
-            let bound = 20_000 + nodes * 2_000;
+            let bound = 4_000 + nodes * 200;
             let mut res = run_strategy(p, Strategy::Fixpoint, f.clone(), bound, 0);
             if matches!(&res, Err(e) if e == "AVM_STEP_LIMIT") {
                 st.inc("step_bound_hits_first_level");
@@ -194,7 +194,7 @@ pub fn run(cfg: &Config) -> i32 {
         Outcome {
             stats,
             level: "exploration",
-            rule: "(a) C07's formula sources under the fixpoint strategy of each portfolio through the real apply_fixpoint with a closure that counts node visits: bound 20000 + 2000 x nodes, re-run with 10x before a non-termination verdict (bounded progress in logical steps, no wall clock), fix(fix(F)) = fix(F), two in-process runs equal; (b) generated programs, theories and verification tasks: each command (translate x5, simplify, analyze x2, verify --no-proof-search --save-problems for strong and external tasks) is run three times in fresh processes and stdout, exit status and every saved file must be byte-identical; a case is a distinct (portfolio, formula) or (command, output)".into(),
+            rule: "(a) C07's formula sources under the fixpoint strategy of each portfolio through the real apply_fixpoint with a closure that counts node visits: bound 4000 + 200 x nodes (the largest number of node visits seen on the unchanged tree is below 2000), re-run with 10x before a non-termination verdict (bounded progress in logical steps, no wall clock), fix(fix(F)) = fix(F), two in-process runs equal; (b) generated programs, theories and verification tasks: each command (translate x5, simplify, analyze x2, verify --no-proof-search --save-problems for strong and external tasks) is run three times in fresh processes and stdout, exit status and every saved file must be byte-identical; a case is a distinct (portfolio, formula) or (command, output)".into(),
             assumptions: vec!["termination is decided as bounded progress; an unbounded 'eventually' is not decidable by a finite run".into()],
             floor: cfg.pick(20_000, 100_000),
             floor_counter: "fixpoint_runs".into(),
